@@ -165,6 +165,11 @@ def check(run):
             ("fitting/test_all_Fisher.py", "load_loglike", (lambda: c_stages.load_loglike_contract(True)), "split=True", "whole function"),
             ("fitting/test_all_Fisher.py", "load_loglike", (lambda: c_stages.load_loglike_contract(False)), "split=False", "whole function"),
             ("fitting/test_all_Fisher.py", "main", (lambda: c_fisher.main_rows_contract("ok")), "rows/ok", "region: allocation of the per-rank tables + loop body (see C07)"),
+            ("fitting/test_all.py", "main", (lambda: c_stages.table_writer_contract(["chi2"])), "table", "region: the statement that builds out_arr (column layout of the per-rank file)"),
+            ("fitting/test_all_Fisher.py", "main", (lambda: c_stages.table_writer_contract(["codelen", "negloglike"])), "table", "region: out_arr"),
+            ("fitting/test_all_Fisher.py", "main", (lambda: c_stages.table_writer_contract([], matrix_name="deriv", out_name="out_arr_deriv", which=1)), "Hessian table", "region: the second assignment of out_arr_deriv"),
+            ("fitting/match.py", "main", (lambda: c_stages.table_writer_contract(["negloglike_all", "codelen", "index_arr"])), "table", "region: out_arr"),
+            ("fitting/combine_DL.py", "main", c_stages.combine_reader_contract, "reader of the match table", "region: data = genfromtxt(...) .. params"),
             ("fitting/test_all.py", "main", (lambda: c_test_all.main_rows_contract("ok")), "rows/ok", "region: max_param / chi2 / params allocation + loop body; optimise_fun through a call-site contract"),
             ("fitting/test_all.py", "main", (lambda: c_test_all.main_rows_contract("nameerror")), "rows/nameerror", "same region, optimise_fun raises NameError"),
             ("fitting/test_all.py", "main", (lambda: c_test_all.main_rows_contract("exception")), "rows/timeout", "same region, the fit times out")):
@@ -201,6 +206,7 @@ def check(run):
             "the (data_start, data_end) of get_functions to every per-function array (chain i, match i, xarr_proc[i] belong to function data_start + i; every per-rank table has "
             "data_end - data_start rows), load_loglike returns rows data_start.. of the result file, the loop body of test_all_Fisher.main fills row i from function i; "
             "structurally: every stage writes per-rank files that carry the rank, rank 0 joins them with cat $(find | sort -V) > out (A-shell: version sort = rank order) and removes them. "
-            "the loop body of test_all.main fills entry i / row i from ONE optimise_fun call for function i (NaN and a zero row when the fit raises or times out) into a table with "
+            "the column layout of every per-rank table is what its reader expects (test_all: -logL | parameters, read by load_loglike; Fisher: codelen | -logL | parameters and the Hessian "
+            "columns; match: -logL | codelen | unique index | parameters, read by combine_DL); the loop body of test_all.main fills entry i / row i from ONE optimise_fun call for function i (NaN and a zero row when the fit raises or times out) into a table with "
             "max(4, floor((comp - 1) / 2)) parameter columns.")
     return run.finish("proof", expl, CHECKER)
